@@ -16,10 +16,10 @@ func init() {
 	vhRegister("VH_C10_RowSign", func(p []int) { VH_C10_RowSign(p[0]) })
 }
 
-// VH_C10_RowSign: table TINY, SHORT, TINY [, LONG]; every column's signedness flag, the
+// VH_C10_RowSign: table TINY, SHORT, TINY [, SHORT]; every column's signedness flag, the
 // presence pattern (any non-empty subset), the image kind and every cell byte are free.
 func VH_C10_RowSign(ncols int) {
-	shapes := []vCellShape{{replication.TypeTiny, 0, 1}, {replication.TypeShort, 0, 2}, {replication.TypeTiny, 0, 1}, {replication.TypeLong, 0, 4}}[:ncols]
+	shapes := []vCellShape{{replication.TypeTiny, 0, 1}, {replication.TypeShort, 0, 2}, {replication.TypeTiny, 0, 1}, {replication.TypeShort, 0, 2}}[:ncols]
 	tc := vRowTable(shapes)
 	uns := make([]bool, ncols)
 	for c := range uns {
